@@ -310,27 +310,27 @@ func (ps *H265RawSTRefPicSet) decode(r *bits.Reader, st_rps_idx uint8, sps *H265
 		}
 
 		i := 0
-		for j := ref.Num_positive_pics - 1; j >= 0; j-- {
+		for j := int(ref.Num_positive_pics) - 1; j >= 0; j-- {
 			d_poc = ref_delta_poc_s1[j] + delta_rps
-			if d_poc < 0 && ps.Use_delta_flag[ref.Num_negative_pics+j] == 1 {
+			if d_poc < 0 && ps.Use_delta_flag[int(ref.Num_negative_pics)+j] == 1 {
 				delta_poc_s0[i] = d_poc
-				i++
 				used_by_curr_pic_s0[i] =
-					ps.Used_by_curr_pic_flag[ref.Num_negative_pics+j]
+					ps.Used_by_curr_pic_flag[int(ref.Num_negative_pics)+j]
+				i++
 			}
 		}
 		if delta_rps < 0 && ps.Use_delta_flag[num_delta_pocs] == 1 {
 			delta_poc_s0[i] = delta_rps
-			i++
 			used_by_curr_pic_s0[i] =
 				ps.Used_by_curr_pic_flag[num_delta_pocs]
+			i++
 		}
 		for j := 0; j < int(ref.Num_negative_pics); j++ {
 			d_poc = ref_delta_poc_s0[j] + delta_rps
 			if d_poc < 0 && ps.Use_delta_flag[j] == 1 {
 				delta_poc_s0[i] = d_poc
-				i++
 				used_by_curr_pic_s0[i] = ps.Used_by_curr_pic_flag[j]
+				i++
 			}
 		}
 
@@ -347,31 +347,31 @@ func (ps *H265RawSTRefPicSet) decode(r *bits.Reader, st_rps_idx uint8, sps *H265
 		}
 
 		i = 0
-		for j := ref.Num_negative_pics - 1; j >= 0; j-- {
+		for j := int(ref.Num_negative_pics) - 1; j >= 0; j-- {
 			d_poc = ref_delta_poc_s0[j] + delta_rps
 			if d_poc > 0 && ps.Use_delta_flag[j] == 1 {
 				delta_poc_s1[i] = d_poc
-				i++
 				used_by_curr_pic_s1[i] = ps.Used_by_curr_pic_flag[j]
+				i++
 			}
 		}
 		if delta_rps > 0 && ps.Use_delta_flag[num_delta_pocs] == 1 {
 			delta_poc_s1[i] = delta_rps
-			i++
 			used_by_curr_pic_s1[i] =
 				ps.Used_by_curr_pic_flag[num_delta_pocs]
+			i++
 		}
 		for j := 0; j < int(ref.Num_positive_pics); j++ {
 			d_poc = ref_delta_poc_s1[j] + delta_rps
 			if d_poc > 0 && ps.Use_delta_flag[int(ref.Num_negative_pics)+j] == 1 {
 				delta_poc_s1[i] = d_poc
-				i++
 				used_by_curr_pic_s1[i] =
 					ps.Used_by_curr_pic_flag[int(ref.Num_negative_pics)+j]
+				i++
 			}
 		}
 
-		ps.Num_positive_pics = 1
+		ps.Num_positive_pics = uint8(i)
 		for i := 0; i < int(ps.Num_positive_pics); i++ {
 			if i == 0 {
 				ps.Delta_poc_s1_minus1[i] =
